@@ -1983,6 +1983,18 @@ class Exec:
                     return obj.items[i]
                 raise SymRaise("IndexError", w)
             raise Unsupported("symbolic index into concrete sequence")
+        if isinstance(obj, VList) and obj.items is None and getattr(obj, "content", None) is not None and isinstance(key, (VInt, VBool)):
+            # list(<set / dict / view>)[i] with a literal index: some element of the content when the list is long enough, IndexError otherwise
+            # (which element is left open: the order of the list is not modelled)
+            t = z3.simplify(self.tint(key))
+            if z3.is_int_value(t):
+                i = t.as_long()
+                need = i + 1 if i >= 0 else -i
+                if not self.branch(obj.ln >= need):
+                    raise SymRaise("IndexError", w)
+                x = c.val(c.fresh("elem", c.Id))
+                self.assume(z3.Select(obj.content, x))
+                return VVal(x)
         if isinstance(obj, VVal):
             c.val(obj.term)
             if not self.branch(self.subscriptable(obj.term)):
